@@ -362,7 +362,7 @@ fn random_part(ctx: &Ctx) -> Stats {
             v
         });
         let drv = std::cell::RefCell::new(DecDriver::new());
-        fw::run_random(ctx, 1100 + part as u64, ctx.n(3_000, 150_000), &strat, st, |bytes, st| {
+        fw::run_random(ctx, 1100 + part as u64, ctx.n(25_000, 150_000), &strat, st, |bytes, st| {
             st.class("random-decode-input");
             if !promised_decode(enc, bytes) {
                 st.nontrivial_hash(fw::mix(fw::fnv(bytes), part as u64));
@@ -392,7 +392,7 @@ fn random_part(ctx: &Ctx) -> Stats {
             s
         });
         let drv = std::cell::RefCell::new(EncDriver::new());
-        fw::run_random(ctx, 1200 + part as u64, ctx.n(3_000, 150_000), &strat, st, |text, st| {
+        fw::run_random(ctx, 1200 + part as u64, ctx.n(25_000, 150_000), &strat, st, |text, st| {
             st.class("random-encode-input");
             if !text.is_ascii() {
                 st.nontrivial_hash(fw::mix(fw::fnv(text.as_bytes()), 1000 + part as u64));
